@@ -16,6 +16,7 @@ DRIVERS = [
     ("bimap_driver", "ExtractBimap.v", "bimap_model.ml", "bimap_driver.ml"),
     ("utf8_driver", "ExtractUtf8.v", "utf8_model.ml", "utf8_driver.ml"),
     ("forwarder_driver", "ExtractForwarder.v", "forwarder_model.ml", "forwarder_driver.ml"),
+    ("pool_driver", "ExtractPool.v", "pool_model.ml", "pool_driver.ml"),
     ("observer_driver", "ExtractObserver.v", "observer_model.ml", "observer_driver.ml"),
 ]
 GO_PKGS = ["proxy", "encryption", "interceptor", "collect", "proto/compat"]
